@@ -161,6 +161,14 @@ impl ItsWorld {
             .deployed_address()
     }
 
+    /// Address the service registered for `id` (falls back to the host derivation).
+    pub fn token_addr(&mut self, id: &[u8; 32]) -> Address {
+        match self.registry_entry(id) {
+            Some((a, _)) => a,
+            None => self.predicted_token_address(id),
+        }
+    }
+
     /// Make the address for `id` dispatch to the tree's native InterchainToken once deployed.
     pub fn prime_for(&mut self, id: &[u8; 32]) {
         let addr = self.predicted_token_address(id);
